@@ -2,6 +2,7 @@ package checks
 
 import (
 	"fmt"
+	"verifharness/symref"
 
 	"github.com/gmrtd/gmrtd/activeauth"
 	"github.com/gmrtd/gmrtd/cms"
@@ -177,6 +178,16 @@ func c07BufferPerso(k *fw.K, i int) *perso.Perso {
 		o.AA = perso.AAOpts{Kind: 2, Curve: []int{4, 5, 7}[(i/2)%3], DER: (i/6)%2 == 1}
 	} else {
 		o.AA = perso.AAOpts{Kind: 1, Bits: []int{1024, 1536, 2048}[(i/2)%3], Hash: chipsim.AAHash((i / 6) % 5)}
+	}
+	// the access-control arrangement in front of AA: the challenge must reach the chip whatever
+	// ran before (after PACE with chip authentication mapping or after chip authentication, too)
+	switch (i / 3) % 4 {
+	case 1:
+		o.Access, o.ParamID, o.Suite = perso.PACEGMOnly, 12, symref.AES128
+	case 2:
+		o.Access, o.ParamID, o.Suite = perso.PACECAM, 13, symref.AES128
+	case 3:
+		o.CA = perso.CAOpts{On: true, Curve: 2, Suite: symref.AES128}
 	}
 	return perso.Build(r, o)
 }
